@@ -196,7 +196,7 @@ def _f(bits):
     return _struct.unpack("<f", _struct.pack("<I", bits & 0xffffffff))[0]
 
 
-GSTATES = [0, 1, 1, 2, 2, 7, -1, 2147483647, -2147483648]
+GSTATES = [0, 1, 1, 2, 2, 7, -1, 2147483647, -2147483648, -2, 2147483646]
 GWEIGHTS_PLAIN = [fbits(x) for x in (0.5, 1.0, 1.5, 2.0, -3.25, 0.1, 10.0, 123.4565, 0.001)]
 
 
@@ -335,7 +335,7 @@ def rand_node_id(rng, gs, next_node, top_only=0.6):
 def rand_pos(rng, gs):
     r = rng.random()
     if r < 0.7: return rng.randrange(0, len(gs) + 1)
-    if r < 0.85: return rng.choice([-1, -2, len(gs) + 1, 100, 101])
+    if r < 0.85: return rng.choice([-1, -2, len(gs) + 1, 100, 101, 255, 256, 257, 256 + max(len(gs) - 1, 0), 65536, 65537])
     return rng.choice(I32)
 
 
